@@ -496,7 +496,7 @@ func Go3[A, B, C any](f func(A, B, C), a A, b B, c C) { goThread(callerName(), f
 // GoNamed spawns a managed thread with an explicit name (harness use).
 func GoNamed(name string, f func()) { goThread(name, f) }
 
-// ---- channels (unbuffered rendezvous emulation) ----
+// ---- channels (rendezvous / bounded queue emulation) ----
 
 func (s *Sched) ch(c interface{}) *chanState {
 	st := s.chans[c]
@@ -507,7 +507,8 @@ func (s *Sched) ch(c interface{}) *chanState {
 	return st
 }
 
-// Send emulates `c <- v` on an unbuffered channel.
+// Send emulates `c <- v`: on an unbuffered channel it completes when a receiver is waiting, on a
+// buffered one also while fewer than cap(c) values are queued.
 func Send[T any](c chan T, v T) {
 	s := S
 	if s == nil || s.cur == nil {
@@ -518,12 +519,12 @@ func Send[T any](c chan T, v T) {
 		return
 	}
 	st := s.ch(c)
-	Point("chan-send", false, func() bool { return st.recvWaiting > len(st.handoff) })
+	Point("chan-send", false, func() bool { return st.recvWaiting+cap(c) > len(st.handoff) })
 	RaceRelease(st)
 	st.handoff = append(st.handoff, v)
 }
 
-// Recv emulates `<-c` on an unbuffered channel.
+// Recv emulates `<-c`.
 func Recv[T any](c chan T) T {
 	s := S
 	if s == nil || s.cur == nil {
